@@ -7,6 +7,14 @@ HOOK_COMMITS = ["2c68a33"]
 
 # id -> (engine, level, technique, level text, level note)
 CHECKS = {
+ "C14": ("pure", "exploration",
+         "runtime round-trip / cross-format / shape monitors and hostile-byte monitors with an independent generic decode (checkptr build)",
+         "runtime monitor on the real serializers: generated messages of all 24 types are serialised and deserialised by each format and compared in a canonical form, the encoded list shape is checked by an independent generic decode, and hostile byte strings must give error xor message, never a panic, and a message only if the bytes are generically a list headed by a known code with kind-compatible fields",
+         "third-party codec trusted beyond agreement of its three handles; JSON has no binary type; integral floats beyond 2^53 compared as doubles (known finding for >= 2^63)"),
+ "C18": ("bubble", "exploration",
+         "lock-step session/registration/subscription reference model predicting every meta event and meta answer",
+         "runtime monitor: after every step of generated churn/kill/testament histories a rotating observer calls a meta procedure and the answer is compared with the model; every meta event (topic, arguments, receivers incl. exact, prefix and wildcard meta subscribers, order on_create<on_subscribe etc.) is predicted exactly; unpredicted meta events are violations",
+         "sessions ended by one kill request leave in arbitrary order: attribution of on_delete among them and what victims still see is not judged (I18 for on_unsubscribe/on_unregister of departures)"),
  "C01": ("bubble", "exploration",
          "lock-step reference-model monitor (pubsub model) over per-session receive logs at synctest quiescence",
          "runtime monitor: generated pub/sub histories are executed against the real router inside a virtual-time bubble; after every step, at a true quiescence point, every session's receive log (incl. a catch-all observer) is compared as a multiset with the prediction of an independent pubsub model (matching, exclusion, filters, ids, payload, errors); held on the generated histories only",
